@@ -439,6 +439,8 @@ def parse_array(node, buf, pos, cfg, ctx, notes):
         _need(buf, pos, 2 * n)
         return _wdecode(buf[pos:pos + 2 * n], cfg), pos + 2 * n
     if n > 100000:
+        if notes is not None:
+            notes.add("absurd_count")
         raise ModelEOF("absurd element count")
     out = []
     for _ in range(n):
